@@ -42,16 +42,20 @@ type limitCfg struct {
 	dynamic  sqlgen.Filter
 	all      map[string]driver.Value // column -> value every statement must be confined to
 	dynFirst bool                    // the dynamic limit is put on the handle before the shard limit
+	soft     bool                    // the dynamic limit's callback lets violations pass (log-only); the shard limit stays hard
 }
 
 func limits() []limitCfg {
 	return []limitCfg{
-		{"shard(org)", sqlgen.Filter{"org_id": int64(1)}, nil, map[string]driver.Value{"org_id": int64(1)}, false},
-		{"shard(org,region)", sqlgen.Filter{"org_id": int64(1), "region": "us"}, nil, map[string]driver.Value{"org_id": int64(1), "region": "us"}, false},
-		{"dynamic(org)", nil, sqlgen.Filter{"org_id": int64(1)}, map[string]driver.Value{"org_id": int64(1)}, false},
-		{"shard(org)+dynamic(region)", sqlgen.Filter{"org_id": int64(1)}, sqlgen.Filter{"region": "us"}, map[string]driver.Value{"org_id": int64(1), "region": "us"}, false},
-		{"dynamic(region)+shard(org)", sqlgen.Filter{"org_id": int64(1)}, sqlgen.Filter{"region": "us"}, map[string]driver.Value{"org_id": int64(1), "region": "us"}, true},
-		{"dynamic(org)+shard(region)", sqlgen.Filter{"region": "us"}, sqlgen.Filter{"org_id": int64(1)}, map[string]driver.Value{"org_id": int64(1), "region": "us"}, true},
+		{"shard(org)", sqlgen.Filter{"org_id": int64(1)}, nil, map[string]driver.Value{"org_id": int64(1)}, false, false},
+		{"shard(org,region)", sqlgen.Filter{"org_id": int64(1), "region": "us"}, nil, map[string]driver.Value{"org_id": int64(1), "region": "us"}, false, false},
+		{"dynamic(org)", nil, sqlgen.Filter{"org_id": int64(1)}, map[string]driver.Value{"org_id": int64(1)}, false, false},
+		{"shard(org)+dynamic(region)", sqlgen.Filter{"org_id": int64(1)}, sqlgen.Filter{"region": "us"}, map[string]driver.Value{"org_id": int64(1), "region": "us"}, false, false},
+		{"dynamic(region)+shard(org)", sqlgen.Filter{"org_id": int64(1)}, sqlgen.Filter{"region": "us"}, map[string]driver.Value{"org_id": int64(1), "region": "us"}, true, false},
+		{"dynamic(org)+shard(region)", sqlgen.Filter{"region": "us"}, sqlgen.Filter{"org_id": int64(1)}, map[string]driver.Value{"org_id": int64(1), "region": "us"}, true, false},
+		// a log-only dynamic limit (its callback says "continue") next to a shard limit: only the shard limit confines
+		{"shard(org)+soft-dynamic(region)", sqlgen.Filter{"org_id": int64(1)}, sqlgen.Filter{"region": "us"}, map[string]driver.Value{"org_id": int64(1)}, false, true},
+		{"soft-dynamic(region)+shard(org)", sqlgen.Filter{"org_id": int64(1)}, sqlgen.Filter{"region": "us"}, map[string]driver.Value{"org_id": int64(1)}, true, true},
 	}
 }
 
@@ -88,7 +92,7 @@ func newEnv(lim limitCfg) *env {
 		dyn := lim.dynamic
 		db, err = db.WithDynamicLimit(sqlgen.DynamicLimit{
 			GetLimitFilter:        func(ctx context.Context, table string) sqlgen.Filter { return dyn },
-			ShouldContinueOnError: func(err error, table string) bool { return false },
+			ShouldContinueOnError: func(err error, table string) bool { return lim.soft },
 		})
 		if err != nil {
 			panic(err)
